@@ -12,6 +12,7 @@ import (
 	"verif/internal/corpus"
 	"verif/internal/lab"
 	"verif/internal/plugin"
+	"verif/internal/report"
 	"verif/internal/spec"
 )
 
@@ -248,6 +249,37 @@ func buildCatalogue(c *Ctx) []buildCase {
 				f.Services = []*spec.Service{echoSvc(pkg, tn.svc, tn.msg, "TResp", 2, "/t")}
 			})
 		}})
+	}
+	// 6a. free text that the generators copy into emitted code: header descriptions/examples and
+	// proto comments containing comment terminators, template syntax, quotes, line breaks
+	for _, tx := range []struct{ label, text string }{
+		{"plain", "the tenant id"}, {"star-slash", "accepts application/json or */* for any"}, {"slash-star", "see /* legacy */ notes"}, {"line-comment", "// not a comment"},
+		{"backtick-template", "use `${value}` here"}, {"quotes", `say "hi" and 'bye'`}, {"backslash", `C:\temp\new`}, {"newline", "first line\nsecond line"},
+		{"crlf", "first\r\nsecond"}, {"line-separator", "a\u2028b\u2029c"}, {"html", "<b>&amp;</b> </script>"}, {"percent", "100%s %d %v"}, {"non-ascii", "идентификатор 😀"},
+	} {
+		tx := tx
+		for _, where := range []string{"header-description", "header-example", "comments"} {
+			where := where
+			out = append(out, buildCase{ID: "text/" + where + "/" + tx.label, TS: true, Files: func(pkg, goName string) []*spec.File {
+				return oneFile(pkg, goName, func(f *spec.File) {
+					f.Messages = []*spec.Message{{Name: "TReq", Fields: []*spec.Field{spec.F("id", 1, spec.String), spec.F("q", 2, spec.String)}}, {Name: "TResp", Fields: []*spec.Field{spec.F("ok", 1, spec.Bool)}}}
+					s := echoSvc(pkg, "TextService", "TReq", "TResp", 2, "/t")
+					sh := spec.Header{Name: "X-Tenant", Type: "string", Required: true}
+					mh := spec.Header{Name: "Accept-Kind", Type: "string"}
+					switch where {
+					case "header-description":
+						sh.Description, mh.Description = tx.text, tx.text
+					case "header-example":
+						sh.Example, mh.Example = tx.text, tx.text
+					case "comments":
+						f.Messages[0].Comment, f.Messages[0].Fields[0].Comment, s.Comment, s.Methods[0].Comment = tx.text, tx.text, tx.text, tx.text
+					}
+					s.Headers = []spec.Header{sh}
+					s.Methods[0].Headers = []spec.Header{mh}
+					f.Services = []*spec.Service{s}
+				})
+			}})
+		}
 	}
 	// 6b. the same short name in different scopes, each carrying annotations
 	statusEnum := func() *spec.EnumDef {
@@ -521,8 +553,17 @@ func c13(c *Ctx) {
 	for _, u := range units {
 		rp := map[string]any{"protos": u.protos, "plugins": u.subset}
 		if u.refused != "" {
+			if i := strings.Index(u.refused, "unparsable Go source"); i >= 0 {
+				// protogen formats what the generator emitted and gives up when it does not parse:
+				// that is emitted Go code that does not build, not a decision about the definition
+				msg := u.refused[i:]
+				rp["plugin_error"] = u.refused
+				c.R.Violate(u.caseID, "unparsable-go-source", firstLines(msg, 1), rp)
+				c.R.Decided(u.caseID)
+				continue
+			}
 			// a refusal is not a build failure; C12 decides whether refusing was right
-			c.R.Inconclusive(u.caseID, "plugin-refused")
+			c.R.Inconclusive(u.caseID, "plugin-refused: "+report.Normalise(firstLines(u.refused, 1)))
 			continue
 		}
 		var diags []lab.BuildError
